@@ -97,6 +97,10 @@ def run_e2(res, cfg, src_names, instances, builder, wrappers=(), defs=(), replay
     except MachineryError as e:
         res.error("native build of the replay objects failed: %s" % e)
     nproc = nproc or max(1, NCPU - 2)
+    only = os.environ.get("VERIF_ONLY")
+    if only:
+        instances = [i for i in instances if only in builder(i)[0]]
+        nproc = 1
     tasks = list(enumerate(instances))
     t0 = time.time()
     if nproc == 1 or len(tasks) == 1:
